@@ -118,16 +118,16 @@ def build_pool(ctx, size):
   return pool
 
 
-MAG_CLASSES = ['unit', 'milli', 'kilo', 'mega', '1e12', 'mixed']
+MAG_CLASSES = ['unit', 'milli', 'kilo', 'mega', '1e12', 'mixed', 'micro']
 WEIGHT_CLASSES = ['floats', 'ints', 'all-zero', 'single-nonzero', 'some-zero', 'equal', 'tiny', 'huge']
-WEIGHT_TYPES = ['float', 'int', 'np.float32', 'jax']
+WEIGHT_TYPES = ['float', 'int', 'np.float32', 'jax', 'np0d']   # np0d: a (mutable) 0-d np.ndarray, e.g. np.asarray(n)
 LEAF_KINDS = ['jax', 'np', 'mixed']
 
 
 def make_values(rng, template, n, mag):
   """n lists of float32 leaf values for the template's leaves."""
   shapes = [l.shape for _, l in leaf_paths(template)]
-  scale_of = {'unit': 1.0, 'milli': 1e-3, 'kilo': 1e3, 'mega': 1e6, '1e12': 1e12}
+  scale_of = {'unit': 1.0, 'milli': 1e-3, 'kilo': 1e3, 'mega': 1e6, '1e12': 1e12, 'micro': 1e-8}
   out = [[] for _ in range(n)]
   for shp in shapes:
     s = scale_of.get(mag) or float(10.0**rng.randint(-3, 13))
@@ -142,8 +142,9 @@ def make_values(rng, template, n, mag):
         v = np.asarray(rng.standard_normal(size=shp) * s, dtype=np.float32)
         if rng.rand() < 0.1:
           v = np.zeros(shp, np.float32)
-        # keep non-zero magnitudes away from the sub-normal range
-        v = np.where((v != 0) & (np.abs(v) < 1e-6), np.float32(1e-6), v).astype(np.float32)
+        # keep non-zero magnitudes away from the sub-normal range (class 'micro' is ~1e-8: squares ~1e-16, still normal)
+        floor = np.float32(1e-10 if mag == 'micro' else 1e-6)
+        v = np.where((v != 0) & (np.abs(v) < floor), floor, v).astype(np.float32)
       out[i].append(np.clip(v, -4e12, 4e12).astype(np.float32))
   return out
 
@@ -186,6 +187,8 @@ def typed_weight(jnp, w, wtype):
     return int(w)
   if wtype == 'np.float32':
     return np.float32(w)
+  if wtype == 'np0d':
+    return np.array(w, dtype=np.float64)
   return jnp.asarray(w, dtype=jnp.float32)
 
 
